@@ -595,6 +595,11 @@ func (p *c13) Exec(ctx core.Ctx, cc any) core.Obs {
 		if c.Part == "tree" && group == "documented" {
 			sig += "/" + c13RootClass(c.E)
 		}
+		if c.Part == "err" && c.E.K == "2" && len(c.E.A) == 2 && c.E.A[0].K == "c" {
+			// the failing call stands first in the operator expression: a class of its own, so that the recorded finding
+			// about a call that stands later (bt && nosuch(n)) does not cover it
+			sig += "/call-first"
+		}
 		exp := "value " + c13Brief(want)
 		if st.Err != "" {
 			exp = "a render error (" + st.Err + ") naming " + st.Fn
